@@ -4,6 +4,7 @@ from __future__ import annotations
 
 import ast
 
+from ..execmodel import R
 from ..interp import Hooks, explore
 from ..model import norm
 from ..values import Const, Dct, ExcV, Obj, Str, Sym, tagof
@@ -22,7 +23,9 @@ RULE_TEXT = (
     "C17.a effect traces of query_request: 401 paths have no body read / no execute; sessions written only in "
     "login_request; C17.b one connect per login under secrets token, three-way instance choice; C17.c error fields; "
     "C17.d double-typed pyarrow.compute results (subsecond, multiply/divide by float) do not flow into .cast(int) "
-    "unrounded."
+    "unrounded; C17.b2 two logins per scenario: instance identity; C17.e whole seconds from a floored value; C17.f total; "
+    "C17.g struct validity mask; C17.h wire units; C17.i rowset == serialised result table, empty only when that table "
+    "was tested empty."
 )
 TRUSTED = ["CPython ast", "pyarrow.compute result types: subsecond -> double, multiply(double, int) -> double, round/floor/ceil/trunc keep double but integral",
            "starlette JSONResponse(status_code=...)"]
@@ -52,7 +55,7 @@ class ServerHooks(Hooks):
         # the response encoding (rowtype, arrow conversion) is not part of the authentication guard
         if key.startswith(("types.", "arrow.")) or key.endswith("._describe_last_sql"):
             I.effect("encode", key, site)
-            return Sym(f"{key}()")
+            return Sym(f"{key}()", origin=("call", key, list(args), dict(kwargs)))
         return NotImplemented
 
     def external(self, I, d, args, kwargs, site):
@@ -61,7 +64,9 @@ class ServerHooks(Hooks):
             return Obj(f"response@{I.siteid(site)}", kind="response", status=kwargs.get("status_code", Const(200)), body=args[0] if args else None)
         if d.endswith("run_in_threadpool"):
             I.effect("execute", args, site)
-            return Obj("executed_cursor", kind="cursor", _arrow_table=Sym("ARROW"))
+            return Obj("executed_cursor", kind="cursor", cls=("cursor", "FakeSnowflakeCursor"),
+                       **{R().table: Sym("RESULT_TABLE"), R().rowcount: Sym("ROWCOUNT", typ="int"), R().last_sql: Sym("LAST_SQL", typ="str", truthy=True),
+                          R().index: Sym("FETCH_INDEX"), R().dict_flag: Const(False)})
         return NotImplemented
 
 
@@ -468,7 +473,80 @@ def rule_fraction(ctx):
     ctx.floor("integer casts in arrow.py", n, 2)
 
 
+def rule_rowset(ctx):
+    """C17.i: the rowset of a successful response is the executed cursor's result table, left empty only when that table
+    is tested empty — never decided by the affected-row count or anything else (a DML touching 0 rows still has its one
+    status row)."""
+    prog = ctx.prog
+    m = prog.mod("server")
+    fn = prog.fn("server", "query_request")
+    loc = m.loc(fn)
+
+    def run(I):
+        req = Obj("request", kind="request", headers=Obj("headers", kind="headers"))
+        return I.call(I.global_lookup("server", "query_request"), [req], {}, None)
+
+    from ..values import Dct
+
+    n = 0
+    seen_nonempty = False
+    for p in explore(prog, lambda: ServerHooks("ok"), run, max_paths=128):
+        resp = p.value if p.outcome == "return" else None
+        body = resp.attrs.get("body") if isinstance(resp, Obj) else None
+        data = body.items.get("data") if isinstance(body, Dct) else None
+        ok_flag = body.items.get("success") if isinstance(body, Dct) else None
+        if not (isinstance(data, Dct) and isinstance(ok_flag, Const) and ok_flag.v is True and "rowsetBase64" in data.items):
+            continue
+        n += 1
+        rowset = data.items["rowsetBase64"]
+        empty = isinstance(rowset, Const) and rowset.v == ""
+        tests = [(t, v) for t, v in p.assumed if "RESULT_TABLE" in t]
+        other = [(t, v) for t, v in p.assumed if "ROWCOUNT" in t]
+        if empty:
+            ok = bool(tests) and not other
+            why = (f"decided by {[t for t, _ in other]}" if other else "not decided by a test of the result table")
+            ctx.ob("C17.i", "an empty rowset is sent only when the result table itself was tested empty", ok, loc, "" if ok else why)
+            if not ok:
+                ctx.violation("C17.i", "server", "query_request", "empty rowset " + why[:60], loc,
+                              f"the success response leaves rowsetBase64 empty on a path {why}: a statement whose result table has rows "
+                              f"(e.g. the one status row of a DELETE that affects 0 rows) comes back with no rows through the server")
+        else:
+            seen_nonempty = True
+            src = any(isinstance(x, Sym) and x.tag == "RESULT_TABLE" for x in _prov(rowset))
+            ctx.ob("C17.i", "a non-empty rowset is the serialised result table of the executed cursor", src, loc, tagof(rowset)[:80])
+            if not src:
+                ctx.violation("C17.i", "server", "query_request", "rowset not from the result table", loc,
+                              f"rowsetBase64 is `{tagof(rowset)[:80]}`, which is not derived from the executed cursor's result table")
+    ctx.floor("C17.i success responses", n, 2)
+    if not seen_nonempty:
+        ctx.violation("C17.i", "server", "query_request", "no path sends rows", loc, "no success path serialises the result table")
+
+
+def _prov(v, seen=None):
+    """values a symbolic value was computed from (call / method / attr / binop provenance)"""
+    seen = seen if seen is not None else set()
+    if id(v) in seen:
+        return []
+    seen.add(id(v))
+    out = [v]
+    o = getattr(v, "origin", None)
+    if o:
+        for x in o:
+            if isinstance(x, (list, tuple)):
+                for y in x:
+                    if hasattr(y, "tag"):
+                        out += _prov(y, seen)
+            elif isinstance(x, dict):
+                for y in x.values():
+                    if hasattr(y, "tag"):
+                        out += _prov(y, seen)
+            elif hasattr(x, "tag"):
+                out += _prov(x, seen)
+    return out
+
+
 RULES = [
+    ("C17.i", rule_rowset, ("quick", "thorough")),
     ("C17.a", rule_auth, ("quick", "thorough")),
     ("C17.b", rule_login, ("quick", "thorough")),
     ("C17.b2", rule_login_instances, ("quick", "thorough")),
